@@ -112,6 +112,14 @@ def net_oracle(cid, c, out, fails, bump, notes):
     got_phases = parts[1:-1]
     for i, ph in enumerate(phases):
         msgs = split_items(ph)
+        if c[1] == "v2chaos" and i == len(phases) - 1:
+            # sent while the connections are being cut again and again: loss is legitimate, alteration is not
+            bump("T-chaos-phase")
+            if i >= len(got_phases) or got_phases[i] != "chaos=ok":
+                fails.append(dict(name="net-" + cid, cid=cid, what="under connection churn the receiving Raft got a message that was never sent (altered or duplicated): "
+                                  + (got_phases[i][:200] if i < len(got_phases) else "<phase not reached>")))
+                return
+            continue
         want_app = "(" + " ".join(m for m in msgs if msg_type(m) == "3") + ")"
         want_other = "(" + " ".join(m for m in msgs if msg_type(m) not in ("3", "7")) + ")"
         want_snap = "(" + " ".join(sorted(m for m in msgs if msg_type(m) == "7")) + ")"
